@@ -293,6 +293,16 @@ def check_part(res, ap, orig_part, rp, opname, policy, update_ids, orig_objs):
         if wk is not None and gk != wk:
             res.violation("U1-signatures", opname, "visit %d (measure %d) of the result stands under key signature %s, the measure has %s" % (i_ + 1, m + 1, gk, wk), site="key-signature")
             return
+        for stf in sorted(set(c["staff"] for c in ap.get("clefs", []))):
+            wc = in_force([c for c in ap["clefs"] if c["staff"] == stf], ms[m]["s"], ("sign", "line"))
+            cur_c = None
+            for x in rp.iter_all(S.Clef):
+                if x.staff == stf and x.start.t <= t0 + o_ and (cur_c is None or x.start.t >= cur_c.start.t):
+                    cur_c = x
+            gc = (cur_c.sign, cur_c.line) if cur_c is not None else None
+            if wc is not None and gc != wc:
+                res.violation("U1-signatures", opname, "visit %d (measure %d) of the result has clef %s on staff %d, the measure has %s" % (i_ + 1, m + 1, gc, stf, wc), site="clef")
+                return
         o_ += ms[m]["e"] - ms[m]["s"]
     # U2 no brackets / jumps
     for cls in (S.Repeat, S.Ending, S.DaCapo, S.DalSegno, S.ToCoda):
